@@ -1,6 +1,6 @@
 (* ProofInit.v -- _init_shell after the probe: for every fragmentation of the console's reactions the shell ends up
    configured, with the prompt set, the black-list installed, the sanity check passed and the channel in sync. *)
-From TV Require Import Base BaseLemmas Utf8 Regex Channel ChannelLemmas ProofC02 ProofC03 Hush Session ProofSession ProofC19 Sh ProofC01.
+From TV Require Import Base BaseLemmas Utf8 Regex Channel ChannelLemmas ProofC02 ProofC03 Hush Session ProofSession ProofC04 ProofC04b ProofC06 ProofC19 Sh ProofC01.
 
 (* a line without read-back, then read_until_prompt, on a channel that may still have unread output pending (pre):
    everything up to the prompt is consumed *)
@@ -301,4 +301,131 @@ Proof.
   split; [|vm_compute; reflexivity].
   unfold BASH_CFG_80x24. cbn [map].
   repeat (constructor; [split; [constructor; [discriminate | constructor] | vm_compute; reflexivity]|]). constructor.
+Qed.
+
+(* ---- the probe: wait_for_shell ---- *)
+Lemma send_nrb_keeps_time fuel : forall start s tmo c r c',
+  slow c = None -> send_loop fuel start s false tmo c = (r, c') -> nowc c' = nowc c /\ slow c' = None.
+Proof.
+  induction fuel as [|f IH]; intros start s tmo c r c' Hs H.
+  - destruct s; cbn in H; injection H as <- <-; auto.
+  - destruct s as [|x s0]; [cbn in H; injection H as <- <-; auto|].
+    rewrite send_loop_cons_nrb in H.
+    destruct (write (firstn SEND_SLICE (x :: s0)) false c) as [r1 c1] eqn:Ew.
+    destruct (write_keeps_time _ _ _ _ _ Hs Ew) as [T1 S1].
+    destruct r1; try (injection H as <- <-; auto).
+    destruct (IH _ _ _ _ _ _ S1 H) as [T2 S2]. split; [congruence | exact S2].
+Qed.
+
+(* the probe is answered in time: wait_for_shell returns at the first occurrence of the answer, for EVERY
+   fragmentation and timing of the console's output (banner, echo, answer, prompt ...); what follows the piece that
+   completed the answer stays pending for the next step of the initialisation *)
+Theorem wait_for_shell_answered fuel tmo c (st : stage) (sts : list stage) a :
+  quiet c -> slow c = None -> (0 < tmo)%Z -> wf_pend st ->
+  any_in (blacklist c) (PROBE ++ [CR]) = false ->
+  find_sub PROBE_ANSWER (cpend c ++ cat st) = Some a ->
+  a + length PROBE_ANSWER <= ready (Some (now (io c) + tmo)%Z) (pend (io (load st c))) ->
+  exists c' data,
+    wait_for_shell (S fuel) tmo (st :: sts) c = (IOk, c', sts) /\
+    quiet c' /\ cpend c ++ cat st = data ++ cpend c' /\
+    firstn (a + length PROBE_ANSWER) data = firstn a (cpend c ++ cat st) ++ PROBE_ANSWER /\
+    wr (io c') = wr (io c) ++ PROBE ++ [CR] /\ prompt c' = prompt c /\ blacklist c' = blacklist c.
+Proof.
+  intros (Hw & Hd & Hs) Hslow Htmo Hst Hbl Hf Hr.
+  set (c0 := load st c) in *.
+  assert (L : cpend c0 = cpend c ++ cat st /\ wfc c0 /\ deaths c0 = [] /\ slow c0 = None /\ blacklist c0 = blacklist c /\
+              prompt c0 = prompt c /\ wr (io c0) = wr (io c) /\ now (io c0) = now (io c)).
+  { unfold c0, load, cpend, wfc in *. cbn.
+    assert (M : map snd (map (fun e : Z * list N => ((now (io c) + fst e)%Z, snd e)) st) = map snd st) by (rewrite map_map; reflexivity).
+    split; [unfold cat in *; rewrite map_app, concat_app, M; reflexivity|].
+    split; [unfold wf_pend in *; apply Forall_app; split; [exact Hw|];
+            apply Forall_forall; intros e He; apply in_map_iff in He; destruct He as (e0 & <- & Hin); cbn;
+            rewrite Forall_forall in Hst; exact (Hst e0 Hin)|].
+    auto 10. }
+  destruct L as (L1 & L2 & L3 & L4 & L5 & L6 & L7 & L8).
+  assert (L4' : slow_ok c0) by (unfold slow_ok; rewrite L4; exact I).
+  cbn [wait_for_shell]. unfold line_nrb. cbn [hd_stage tl]. fold c0. unfold sendline.
+  destruct (send (PROBE ++ [CR]) false None c0) as [r c1] eqn:E.
+  destruct (send_prefix _ _ _ _ L4' E) as [(-> & W & _) | (_ & _ & X)]; [|rewrite L5 in X; congruence].
+  unfold send in E. rewrite L5, Hbl in E.
+  destruct (send_nrb_keeps_time _ _ _ _ _ _ _ L4 E) as [T1 S1]. unfold nowc in T1.
+  destruct (send_loop_nrb_spec _ _ _ _ _ _ _ L4' (Nat.lt_succ_diag_r _) E) as (sent & rst & _ & _ & _ & Wc & _).
+  destruct Wc as (P1 & P2 & P3 & P4 & P5 & P6 & P7).
+  assert (Hw1 : wfc c1) by (unfold wfc; rewrite P1; exact L2).
+  assert (Hd1 : deaths c1 = []) by congruence.
+  assert (Hc1 : cpend c1 = cpend c ++ cat st) by (unfold cpend; rewrite P1; exact L1).
+  assert (HT : match Some tmo with Some T => (0 < T)%Z | None => True end) by exact Htmo.
+  assert (Hl : PROBE_ANSWER <> []) by discriminate.
+  assert (Hf1 : find_sub PROBE_ANSWER (cpend c1) = Some a) by (rewrite Hc1; exact Hf).
+  assert (Hr1 : a + length PROBE_ANSWER <= ready (deadline (now (io c1)) (Some tmo)) (pend (io c1))).
+  { cbn [deadline option_map]. rewrite P1, T1, L8. exact Hr. }
+  destruct (expect_literal_live PROBE_ANSWER (Some tmo) c1 a Hw1 Hd1 HT Hl Hf1 Hr1)
+    as (r & c2 & data & Ex & _ & _ & _ & Dcat & Dfirst & _ & Hw2 & Dcfg & Dd2).
+  rewrite Ex. exists c2, data. split; [reflexivity|].
+  destruct Dcfg as (Q1 & Q2 & Q3 & Q4 & Q5 & Q6).
+  split.
+  { split; [exact Hw2|]. split; [exact Dd2|]. unfold slow_ok. rewrite Q3, S1. exact I. }
+  split; [rewrite <- Hc1; exact Dcat|]. split; [rewrite <- Hc1; exact Dfirst|].
+  split; [rewrite Q6, W, L7; reflexivity|]. split; congruence.
+Qed.
+
+Lemma poe_suffix P u out : prompt_only_at_end P (u ++ out) -> prompt_only_at_end P out.
+Proof.
+  unfold prompt_only_at_end. intros H b c E Hc.
+  specialize (H (u ++ b) c). rewrite <- !app_assoc in H. specialize (H ltac:(rewrite E; reflexivity) Hc).
+  destruct (is_suffix P b) eqn:S; [|reflexivity].
+  apply is_suffix_spec in S as (t & ->). rewrite app_assoc, is_suffix_app in H. discriminate.
+Qed.
+
+(* the whole of _init_shell: the probe is answered in time (first try), every later line is answered with output
+   that contains the prompt only at its end -- then the initialisation succeeds for EVERY fragmentation and timing,
+   and leaves the channel in sync with the prompt and the black-list of the shell class installed *)
+Theorem init_shell_ok fuel tmo bl cfg c (st0 st_ps1 : stage) (stgs : list stage) (st_san : stage) a noise1 :
+  quiet c -> slow c = None -> (0 < tmo)%Z -> wf_pend st0 ->
+  any_in (blacklist c) (PROBE ++ [CR]) = false ->
+  find_sub PROBE_ANSWER (cpend c ++ cat st0) = Some a ->
+  a + length PROBE_ANSWER <= ready (Some (now (io c) + tmo)%Z) (pend (io (load st0 c))) ->
+  any_in bl (PS1_LINE ++ [CR]) = false ->
+  Forall (fun l => any_in bl (l ++ [CR]) = false) cfg ->
+  any_in bl (SANITY ++ [CR]) = false ->
+  wf_pend st_ps1 -> cat st_ps1 = noise1 ++ TBOT_PROMPT ->
+  prompt_only_at_end TBOT_PROMPT (skipn (a + length PROBE_ANSWER) (cpend c ++ cat st0) ++ noise1) ->
+  Forall2 (fun l stg => wf_pend stg /\ exists noise, cat stg = noise ++ TBOT_PROMPT /\ prompt_only_at_end TBOT_PROMPT noise) cfg stgs ->
+  wf_pend st_san -> cat st_san = tty_echo false (SANITY ++ [CR]) ++ onlcr SANITY_ANSWER ++ TBOT_PROMPT ->
+  exists c', init_shell (S fuel) tmo bl PS1_LINE cfg (st0 :: st_ps1 :: stgs ++ [st_san]) c = (IOk, c', []) /\
+             insync c' /\ prompt c' = Some (SLit TBOT_PROMPT) /\ blacklist c' = bl.
+Proof.
+  intros Hq Hslow Htmo Hw0 Hb0 Hf Hr Hb1 Hbc Hbs Hw1 Hc1 Ho1 Hs Hws Hcs.
+  destruct (wait_for_shell_answered fuel tmo c st0 (st_ps1 :: stgs ++ [st_san]) a Hq Hslow Htmo Hw0 Hb0 Hf Hr)
+    as (c1 & data & E & Hq1 & Dcat & Dfirst & _).
+  rewrite init_shell_unfold, E.
+  apply (init_after_probe_ok bl cfg c1 (cpend c1) st_ps1 stgs st_san noise1); auto.
+  - (* what is still unread is a suffix of what followed the answer *)
+    assert (Hlen : a + length PROBE_ANSWER <= length data).
+    { apply (f_equal (@length N)) in Dfirst. rewrite firstn_length, app_length, firstn_length in Dfirst.
+      pose proof (find_sub_Some _ _ _ Hf) as (x & y & Ex & Lx). rewrite Ex in Dfirst. rewrite app_length in Dfirst. lia. }
+    assert (Sk : skipn (a + length PROBE_ANSWER) (cpend c ++ cat st0) =
+                 skipn (a + length PROBE_ANSWER) data ++ cpend c1).
+    { rewrite Dcat, skipn_app. replace (a + length PROBE_ANSWER - length data) with 0 by lia. reflexivity. }
+    rewrite Sk, <- app_assoc in Ho1. exact (poe_suffix _ _ _ Ho1).
+  - exact sanity_answer_has_no_prompt.
+Qed.
+
+(* the hypotheses about the probe are satisfiable: a banner, the echo of the probe, its answer and bash's own prompt,
+   in three pieces arriving 10, 20 and 30 ms after the probe was written *)
+Example probe_hypotheses_satisfiable :
+  let c := with_prompt (lx_chan false []) None in
+  let st0 : stage := [(10%Z, [87; 101; 108; 99; 111; 109; 101; 13; 10]%N ++ firstn 5 (tty_echo true (PROBE ++ [CR])));
+                      (20%Z, skipn 5 (tty_echo true (PROBE ++ [CR])) ++ firstn 4 PROBE_ANSWER);
+                      (30%Z, skipn 4 PROBE_ANSWER ++ [13; 10; 98; 97; 115; 104; 36; 32]%N)] in
+  quiet c /\ slow c = None /\ wf_pend st0 /\ any_in (blacklist c) (PROBE ++ [CR]) = false /\
+  find_sub PROBE_ANSWER (cpend c ++ cat st0) = Some 26 /\
+  26 + length PROBE_ANSWER <= ready (Some (now (io c) + 204)%Z) (pend (io (load st0 c))) /\
+  prompt_only_at_end TBOT_PROMPT
+    (skipn (26 + length PROBE_ANSWER) (cpend c ++ cat st0) ++ tty_echo true (PS1_LINE ++ [CR])).
+Proof.
+  cbv zeta. split; [unfold quiet, wfc, wf_pend, slow_ok; cbn; auto|]. split; [reflexivity|].
+  split; [repeat constructor; discriminate|]. split; [vm_compute; reflexivity|].
+  split; [vm_compute; reflexivity|]. split; [vm_compute; lia|].
+  apply poe_check. vm_compute. reflexivity.
 Qed.
